@@ -196,6 +196,42 @@ func c09a(c *Ctx, r *Report) {
 			}
 		}
 		r.Check(ok, clause, "R4 DECISION-TABLE", g.Name, c.pos(g.Decl.Pos()), "an item already in the set: no effect, result 0; a new item: appended and recorded, result 1", "InsertItem does not return 1 exactly when it added a new item")
+		// "already in the set" is decided by the item itself: the membership map is keyed by the Item value (rule
+		// and dot together, compared by ==) and both the test and the record use `*It`, the inserted item. Any
+		// derived key (a packed integer, a string) has to be injective for every grammar size to mean the same.
+		ginfo := g.Pkg.TypesInfo
+		ps := paramObjs(ginfo, g.Decl)
+		why := ""
+		nIdx := 0
+		if len(ps) != 1 {
+			why = "expected one parameter (the item)"
+		}
+		ast.Inspect(g.Decl.Body, func(n ast.Node) bool {
+			ix, isI := n.(*ast.IndexExpr)
+			if !isI || !fieldNamed(ginfo, ix.X, "itemMap") || why != "" {
+				return true
+			}
+			nIdx++
+			mt, isM := ginfo.TypeOf(ix.X).Underlying().(*types.Map)
+			if !isM {
+				why = "itemMap is not a map"
+				return true
+			}
+			if nt, isN := mt.Key().(*types.Named); !isN || nt.Obj().Name() != "Item" {
+				why = "the membership map is keyed by " + types.TypeString(mt.Key(), shortQual) + ", not by the item (rule, dot) itself: two different items may share a key"
+				return true
+			}
+			st, isS := unparen(ix.Index).(*ast.StarExpr)
+			if !isS || identObj(ginfo, st.X) != ps[0] {
+				why = "the membership map is indexed with " + exprString(ix.Index) + ", not with the inserted item *" + ps[0].Name()
+			}
+			return true
+		})
+		if why == "" && nIdx < 2 {
+			why = "the membership map is not both tested and updated with the inserted item"
+		}
+		r.Check(why == "", clause, "R1 PROVENANCE", g.Name+"/membership-is-by-the-item-itself", c.pos(g.Decl.Pos()),
+			"itemMap is a map[Item]…, tested and recorded under the inserted item's own value", why)
 	}
 	// getItemCloure
 	if g := c.need(r, clause, "Grammar", "Grammar", "getItemCloure"); g != nil {
